@@ -15,27 +15,29 @@ def limit_ms(on):
     return int(on[:-1]) * UNIT_MS[on[-1]]
 
 
-def model_for(rules, on_step):
-    """A step with one irq act; the timeout rules sit on the act or on the step."""
+def model_for(rules, on_step, late=False):
+    """A step with one irq act; the timeout rules sit on the act or on the step.  late: a gate step with one irq comes first, so the timed task starts later than its process."""
     tmo = [scen.timeout(on, [scen.step("ts%d" % i, [scen.irq("ta%d" % i)])]) for i, on in enumerate(rules)]
+    gate = [scen.step("s0", [scen.irq("g")])] if late else []
     if on_step == "both":
         # rule 0 sits on the step, the others on its act (same or different durations on two tasks of one ancestor chain)
-        return scen.wf("m", [scen.step("s1", [scen.irq("a1", timeout=tmo[1:])], timeout=tmo[:1]), scen.step("s2", [scen.irq("a2")])])
+        return scen.wf("m", gate + [scen.step("s1", [scen.irq("a1", timeout=tmo[1:])], timeout=tmo[:1]), scen.step("s2", [scen.irq("a2")])])
     if on_step:
-        return scen.wf("m", [scen.step("s1", [scen.irq("a1")], timeout=tmo), scen.step("s2", [scen.irq("a2")])])
-    return scen.wf("m", [scen.step("s1", [scen.irq("a1", timeout=tmo)]), scen.step("s2", [scen.irq("a2")])])
+        return scen.wf("m", gate + [scen.step("s1", [scen.irq("a1")], timeout=tmo), scen.step("s2", [scen.irq("a2")])])
+    return scen.wf("m", gate + [scen.step("s1", [scen.irq("a1", timeout=tmo)]), scen.step("s2", [scen.irq("a2")])])
 
 
 class TRun(Run):
     def __init__(self, I, res, rules, on_step, cfg, prop):
         self.I = I
         self.res = res
-        self.name = "timeout:%s:%s" % ("both" if on_step == "both" else "step" if on_step else "act", "+".join(rules))
+        self.late = bool(getattr(cfg, "late", False))
+        self.name = "timeout:%s:%s%s" % ("both" if on_step == "both" else "step" if on_step else "act", "+".join(rules), ":late" if self.late else "")
         self.cfg = cfg
         self.prop = prop
         self.rules = rules
         self.on_step = on_step
-        self.model = model_for(rules, on_step)
+        self.model = model_for(rules, on_step, self.late)
         self.inputs = {}
         self.sym = {}
         self.log = []
@@ -82,6 +84,13 @@ class TRun(Run):
         I = self.I
         W = self.boot()
         W.drain()
+        if self.late:
+            # the client opens the gate some (symbolic) time after the start: the timed task is created then, its rules count from there
+            g = [t for t in self.tasks() if t["nid"] == "g" and t["state"] == "Interrupt"]
+            if not g:
+                raise Unsupported("gate act not open")
+            W.action(self.pid, g[0]["tid"], "Next", {})
+            W.drain()
         tt = self.timed_task()
         if tt is None:
             raise Unsupported("timed task not created")
@@ -179,7 +188,7 @@ class TRun(Run):
                 m = I.model(neg)
             model = {k: str(m.eval(v, model_completion=True)) for k, v in self.sym.items()} if m is not None else {}
             self.res.violations.append(Violation(self.prop, role, desc, self.name, dict(decisions=list(I.path.taken), events=[e["event"] for e in self.log], rules=self.rules,
-                                                                                         on_step=self.on_step, start_var=self.start_var, ev_reads=list(self.ev_reads), log=list(self.log)), model, None))
+                                                                                         on_step=self.on_step, late=self.late, start_var=self.start_var, ev_reads=list(self.ev_reads), log=list(self.log)), model, None))
 
     def viol(self, role, desc, detail=None):
         I = self.I
@@ -188,7 +197,7 @@ class TRun(Run):
         m = I.model()
         model = {k: str(m.eval(v, model_completion=True)) for k, v in self.sym.items()} if m is not None else {}
         self.res.violations.append(Violation(self.prop, role, desc, self.name, dict(decisions=list(I.path.taken), events=[e["event"] for e in self.log], rules=self.rules,
-                                                                                     on_step=self.on_step, start_var=self.start_var, ev_reads=list(self.ev_reads), log=list(self.log)), model, detail))
+                                                                                     on_step=self.on_step, late=self.late, start_var=self.start_var, ev_reads=list(self.ev_reads), log=list(self.log)), model, detail))
 
 
 def confirm(v, oracles=()):
@@ -200,14 +209,19 @@ def confirm(v, oracles=()):
     events = [e for e in events if e != "answer-any"]
     m = v.model or {}
     # the clock offset of every event = (model reading inside the event) - (reading that stamped the task's start)
-    model = model_for(rules, on_step)
+    late = bool(d.get("late"))
+    model = model_for(rules, on_step, late)
     start_val = int(m.get(d["start_var"], 1000))
+    # late: the gate is opened `gap` ms after the start (the model's first reading stamps the process), the timed task is stamped then
+    gap = max(0, start_val - int(m.get("clk1", start_val))) if late else 0
     # the engine clock gets the sub-second phase the model's start has (a few ms of real time pass before the task is stamped)
-    steps = [{"op": "clock", "phase": start_val % 1000}, {"op": "start", "mid": "m", "inputs": {}}]
+    steps = [{"op": "clock", "phase": (start_val - gap) % 1000}, {"op": "start", "mid": "m", "inputs": {}}]
+    if late:
+        steps += [{"op": "clock", "offset": gap}, {"op": "action", "kind": "next", "nid": "g", "occurrence": 0, "options": {}}]
     offsets = []
     for ev, (lo, hi) in zip(events, d["ev_reads"]):
         val = int(m.get("clk%d" % hi, start_val)) if hi >= lo else start_val
-        offsets.append(max(0, val - start_val))
+        offsets.append(gap + max(0, val - start_val))
     offsets = [max(offsets[: i + 1]) for i in range(len(offsets))]
     kinds = [e.get("kind", "Next") for e in d.get("log", []) if e.get("event") in ("tick", "answer")]
     for i, (ev, off) in enumerate(zip(events, offsets)):
@@ -249,7 +263,7 @@ def confirm(v, oracles=()):
     si = 0
     snaps = obs["snapshots"]
     # snapshot 0 = after start; then one per replay step
-    step_snaps = snaps[2:]  # snapshot 0: clock phase, 1: start, then one per replay step
+    step_snaps = snaps[4 if late else 2:]  # snapshot 0: clock phase, 1: start, (late: 2 gate clock, 3 gate action,) then one per replay step
     j = 0
     for ev, off in zip(events, offsets):
         if ev == "answer":
@@ -272,7 +286,7 @@ def confirm(v, oracles=()):
                     roles.add("timeout:fired-early:unit=%s" % on[-1])
                 if tt and tt[0]["state"] in TERMINAL and tt[0]["end_time"] and False:
                     pass
-            elif n == 0 and tt and tt[0]["state"] not in TERMINAL and off >= lim:
+            elif n == 0 and tt and tt[0]["state"] not in TERMINAL and off - gap >= lim:
                 roles.add("timeout:not-fired-when-due:unit=%s" % on[-1])
             fired_before[i] = n
     # fired for a finished task: a rule step instance created after the timed task's end
@@ -299,7 +313,7 @@ def run_rules(I, rules, on_step, cfg_kw, prop):
         r.install_event_monitor = inst
         r.run()
 
-    res = explore(I, "timeout:%s:%s" % ("both" if on_step == "both" else "step" if on_step else "act", "+".join(rules)), one, max_paths=cfg.max_paths)
+    res = explore(I, "timeout:%s:%s%s" % ("both" if on_step == "both" else "step" if on_step else "act", "+".join(rules), ":late" if getattr(cfg, "late", False) else ""), one, max_paths=cfg.max_paths)
     seen = {}
     for v in res.violations:
         if v.role in seen:
